@@ -12,6 +12,7 @@ PROP = "C09"
 DRIVERS = ["drv_validators"]
 LEAN_TARGETS = ["Pyrtma.Props.C09"]
 LEVEL = "proof"
+ISOLATE = True          # the real code runs in a forked child (check: `run_isolated`): a segfault still ends in a verdict
 MATCHERS: Dict[str, Any] = {}
 TRUSTED = [
     "Lean 4.33.0 kernel; axioms propext / Classical.choice / Quot.sound only (audited by #print axioms)",
@@ -463,6 +464,7 @@ def _feed_progs(res: C.Result, deep: bool, extra=()):
     tot = {"assign": 0, "outside": 0, "raised": 0, "via_view": 0, "ended_by_exception": 0, "max_depth": 0}
     for i, prog in enumerate(progs):
         cid = f"p{i}"
+        C.crumb({"prog": _pack(prog)})
         try:
             blk, info = VC.run_prog(cid, prog)
         except Exception as e:  # noqa: BLE001
@@ -511,6 +513,7 @@ def _feed(res: C.Result, cases: List[Dict[str, Any]], start: int):
     meta: Dict[str, Any] = {}
     for i, case in enumerate(cases):
         cid = f"c{start + i}"
+        C.crumb({"case": _pack(case)})
         try:
             blk, info = VC.run_case(cid, case)
         except KeyError:
@@ -570,6 +573,7 @@ def _feed_ctx(res: C.Result, deep: bool, extra=()):
     for i, evs in enumerate(hs):
         cid = f"x{i}"
         info: Dict[str, Any] = {}
+        C.crumb({"ctx": evs})
         try:
             blk = VC.run_ctx(cid, evs, info)
         except Exception as e:  # noqa: BLE001
